@@ -216,3 +216,37 @@ package remote
 //@   call do set putResp = result0
 //@   ensures [C13:success-only-on-201] result == nil ==> putCalls == 1 && putResp.StatusCode == 201
 //@   ensures [C13:one-request-at-most] putCalls <= 1
+//@
+//@ // ---------------------------------------------------------------- references and URLs (C20)
+//@ func (*Repository).ParseReference
+//@   requires [wf] r != nil
+//@   ensures [C20:result-is-in-this-repository] result1 == nil ==> result0.Registry == r.Reference.Registry && result0.Repository == r.Reference.Repository && result0.Reference != ""
+//@   ensures [C20:fully-qualified-form] pOK(reference) ==> (result1 == nil) == (pReg(reference) == r.Reference.Registry && pRepo(reference) == r.Reference.Repository && pRef(reference) != "") && (result1 == nil ==> result0.Reference == pRef(reference))
+//@   ensures [C20:digest-form-drops-the-tag] !pOK(reference) && firstIdx(reference, 64) != -1 ==> (result1 == nil) == digestParses(strsub(reference, firstIdx(reference, 64) + 1, strlen(reference))) && (result1 == nil ==> result0.Reference == strsub(reference, firstIdx(reference, 64) + 1, strlen(reference)))
+//@   ensures [C20:tag-or-digest-form] !pOK(reference) && firstIdx(reference, 64) == -1 ==> (result1 == nil) == (reference != "" && (firstIdx(reference, 58) != -1 ? digestParses(reference) : tagOK(reference))) && (result1 == nil ==> result0.Reference == reference)
+//@   ensures [C20:rejects-with-invalid-reference] result1 != nil ==> errors.Is(result1, errdef.ErrInvalidReference)
+//@   modifies alloc, elems[any], elems[string]
+//@
+//@ pure schemeOf(plainHTTP bool) string = plainHTTP ? "http" : "https"
+//@ pure repoBaseURL(plainHTTP bool, ref registry.Reference) string = schemeOf(plainHTTP) + "://" + hostOf(ref) + "/v2/" + ref.Repository
+//@ func buildScheme
+//@   ensures [C20:scheme] result == schemeOf(plainHTTP)
+//@   modifies nothing
+//@ func buildRegistryBaseURL
+//@   ensures [C20:url-shape] result == schemeOf(plainHTTP) + "://" + hostOf(ref) + "/v2/"
+//@ func buildRegistryCatalogURL
+//@   ensures [C20:url-shape] result == schemeOf(plainHTTP) + "://" + hostOf(ref) + "/v2/_catalog"
+//@ func buildRepositoryBaseURL
+//@   ensures [C20:url-shape] result == repoBaseURL(plainHTTP, ref)
+//@ func buildRepositoryTagListURL
+//@   ensures [C20:url-shape] result == repoBaseURL(plainHTTP, ref) + "/tags/list"
+//@ func buildRepositoryManifestURL
+//@   ensures [C20:url-shape] result == repoBaseURL(plainHTTP, ref) + "/" + "manifests" + "/" + ref.Reference
+//@ func buildRepositoryBlobURL
+//@   ensures [C20:url-shape] result == repoBaseURL(plainHTTP, ref) + "/" + "blobs" + "/" + ref.Reference
+//@ func buildRepositoryBlobUploadURL
+//@   ensures [C20:url-shape] result == repoBaseURL(plainHTTP, ref) + "/blobs/uploads/"
+//@ func buildRepositoryBlobMountURL
+//@   ensures [C20:url-shape] result == repoBaseURL(plainHTTP, ref) + "/blobs/uploads/" + "?mount=" + d + "&from=" + fromRepo
+//@ func buildReferrersURL
+//@   ensures [C20:url-shape] artifactType == "" ==> result == repoBaseURL(plainHTTP, ref) + "/referrers/" + ref.Reference
